@@ -176,7 +176,12 @@ class BatchBase(futures.FutureBase):
 
     def dump(self, indent=0):
         debug.write(debug.str(self), indent)
-        debug.write("Priority: %s" % debug.repr(self.get_priority()), indent + 1)
+        if self.items and not self.is_flushed():
+            # (the scheduler only ever asks a pending batch that has items for its priority;
+            # an override may not be defined for anything else)
+            debug.write(
+                "Priority: %s" % debug.repr(self.get_priority()), indent + 1
+            )
         if self.items:
             debug.write("Items:", indent + 1)
             for item in self.items:
